@@ -446,11 +446,16 @@ class Spectrum:
         for end in (spectrum_wave[0], spectrum_wave[-1]):
             wave = np.where(np.abs(wave - end) <= _WAVE_RTOL*abs(end), end, wave)
 
-        # (values in double precision as well: single and half precision
-        # values are interpolated in their own precision otherwise, and a
-        # one-sample spectrum comes back as NaN)
+        # (values in double precision as well: values of any other type are
+        # interpolated in their own precision, and a one-sample spectrum
+        # comes back as NaN)
         spectrum_value = np.asarray(spectrum.value)
-        spectrum_value = spectrum_value.astype(np.result_type(spectrum_value.dtype, np.float64))
+        spectrum_value = spectrum_value.astype(complex if np.iscomplexobj(spectrum_value) else float)
+
+        # the two-element fill value (below / above the data) in any
+        # array-like form (scipy wants a tuple)
+        if np.ndim(fill_value) > 0:
+            fill_value = tuple(fill_value)
 
         interp = scipy.interpolate.interp1d(spectrum_wave,
                                             spectrum_value, kind=method,
